@@ -1,6 +1,7 @@
 """C11 — stacked USE configuration applies entries in order, including -* resets (structural clauses)."""
 import ast
 
+from ..core import generic as G
 from ..core import astutil as A
 from ..core import match as M
 from ..core.model import dotted
@@ -126,6 +127,13 @@ def run(ctx):
     ctx.check("R5", mg, ok, "merge-globals-to-untouched", "merge appends the merged globals to the keys the merged dict did not touch")
     ctx.floor("R5", 4)
 
+    # ---- R6 rendering per-package data is read-only on the stored tables ---------------------------------------------
+    G.pure(ctx, "R6", [(MISC, q, (), "a lookup that edits the stored tables changes what the next package gets") for q in (
+        "collapsed_restrict_to_data.pull_data", "collapsed_restrict_to_data.iter_pull_data", "non_incremental_collapsed_restrict_to_data.pull_data",
+        "non_incremental_collapsed_restrict_to_data.iter_pull_data", "ChunkedDataDict.render_pkg", "ChunkedDataDict.render_to_dict",
+        "ChunkedDataDict.render_to_payload", "PayloadDict.render_pkg", "_build_cp_atom_payload", "optimize_incrementals", "incremental_expansion_license") if P.func_opt(MISC, q)]
+    + [(MISC, q, ("param:orig",), "orig= is the documented accumulator; nothing else may be written") for q in ("incremental_expansion", "incremental_chunked")])
+    ctx.floor("R6", 8)
 
 MUTANTS = [
     {"name": "splitter-slice-from-zero", "file": "src/pkgcore/ebuild/domain.py", "old": "                yield from tokens[start_idx:idx]", "new": "                yield from tokens[:idx]", "rule": "R2"},
